@@ -126,7 +126,7 @@ func newWeightedRoundRobinSelector(servers map[string]string) Selector {
 
 func (s *weightedRoundRobinSelector) Select(ctx context.Context, servicePath, serviceMethod string, args interface{}) string {
 	ss := s.servers
-	if len(ss) == 0 {
+	if len(ss) == 0 || s.rr == nil {
 		return ""
 	}
 	val := s.rr.Value
@@ -184,6 +184,9 @@ func createWeighted(servers map[string]string) []*Weighted {
 			ww := v.Get("weight")
 			if ww != "" {
 				if weight, err := strconv.Atoi(ww); err == nil {
+					if weight < 0 {
+						weight = 0
+					}
 					w.Weight = weight
 				}
 			}
@@ -232,6 +235,9 @@ func (s *geoSelector) Select(ctx context.Context, servicePath, serviceMethod str
 		}
 	}
 
+	if len(server) == 0 {
+		return ""
+	}
 	if len(server) == 1 {
 		return server[0]
 	}
@@ -262,6 +268,9 @@ func createGeoServer(servers map[string]string) []*geoServer {
 			}
 			lon, err := strconv.ParseFloat(lonStr, 64)
 			if err != nil {
+				continue
+			}
+			if math.IsNaN(lat) || math.IsInf(lat, 0) || math.IsNaN(lon) || math.IsInf(lon, 0) {
 				continue
 			}
 
